@@ -17,6 +17,10 @@ TReset == /\ Ev("Reset")
           /\ lLog' = Empty /\ lA' = -1 /\ lQ' = -1 /\ cons' = -1 /\ gack' = -1
           /\ fLog' = Empty /\ fA' = -1 /\ fQ' = -1 /\ st' = "init" /\ stream' = "none" /\ aligned' = TRUE
 
+\* the history starts on a long-lived leader log: every leader position (and the group for the follower) is at s
+TBase == /\ Ev("Base") /\ lA = -1 /\ fA = -1
+         /\ lA' = Line.s /\ lQ' = Line.s /\ cons' = Line.s /\ gack' = Line.s
+         /\ UNCHANGED <<lLog, fLog, fA, fQ, st, stream, aligned>>
 TAppend == Ev("Append") /\ LeaderAppend(Line.id)
 THandshake == Ev("Handshake") /\ HandshakeStep(Line.rpcfail)
 TRound == Ev("Round") /\ Step(Line.fault)
@@ -39,7 +43,7 @@ TProj ==
   /\ LiveOK(Line.flive, fLog, fQ, fA)
   /\ UNCHANGED vars
 
-TraceNext == TReset \/ TAppend \/ THandshake \/ TRound \/ TFollowerRestart \/ TFollowerLoseLog
+TraceNext == TReset \/ TBase \/ TAppend \/ THandshake \/ TRound \/ TFollowerRestart \/ TFollowerLoseLog
              \/ TLeaderRestart \/ TLeaderLoseTail \/ TLeaderLoseGroup \/ TLeaderGC \/ TProj
 TraceSpec == TraceInit /\ [][TraceNext]_tvars
 
